@@ -385,7 +385,7 @@ def run(ctx):
     n_probes = n_pairs = n_memo_x = 0
     runs = [("bare", False, False, depth), ("preloaded", True, False, depth - 1)]
     if thorough:
-        runs.append(("bare_core_deep", False, True, 7))
+        runs.append(("bare_core_deep", False, True, 6))
     for label, pre, reduced, d in runs:
         evs = all_events(thorough, reduced)
         rnd.shuffle(evs)
